@@ -20,18 +20,38 @@ package combin
 //@ spec rec plin(s []int, d []int, i int, n int) int reads s[0..i] decreases i = ite(i <= 0, 0, plin(s, d, i-1, n) + s[i-1]*tp(d, i, n))
 //@ spec posdims(d []int) bool = forall(k, 0, len(d), d[k] > 0)
 
+//@ func Card props: C20
+//@ valid forall(k, 0, len(dims), dims[k] >= 0)
+//@ panics iff !valid, before-writes
+//@ writes nothing
+//@ ensures len(dims) == 0 ==> result == 0
+//@ ensures len(dims) > 0 ==> result == tp(dims, 0, len(dims))
+//@ loop 1: invariant card * tp(dims, it, len(dims)) == tp(dims, 0, len(dims)) && forall(k, 0, it, dims[k] >= 0)
+
+// IdxFor: panics exactly when a dimension is not positive or a subscript is outside its
+// dimension; otherwise the result is the row-major linear index, inside [0, product of dims).
 //@ func IdxFor props: C20
 //@ requires len(sub) >= len(dims)
-//@ option may-panic
+//@ valid forall(k, 0, len(dims), dims[k] > 0 && 0 <= sub[k] && sub[k] < dims[k])
+//@ panics iff !valid, before-writes
+//@ writes nothing
 //@ ensures result == plin(sub, dims, len(dims), len(dims))
+//@ ensures 0 <= result && (len(dims) > 0 ==> result < tp(dims, 0, len(dims)))
 //@ loop 1: invariant stride == tp(dims, i+1, len(dims))
 //@ invariant idx == plin(sub, dims, len(dims), len(dims)) - plin(sub, dims, i+1, len(dims))
 //@ invariant -1 <= i && i < len(dims)
+//@ invariant 0 <= idx && idx < stride
+//@ invariant forall(k, i+1, len(dims), dims[k] > 0 && 0 <= sub[k] && sub[k] < dims[k])
 
+// SubFor (dims positive, at least one dimension, sub not sharing storage with dims): panics
+// exactly when idx is outside [0, product of dims) or a non-nil sub has the wrong length;
+// otherwise every subscript lies inside its dimension and IdxFor of the result is idx again.
 //@ func SubFor props: C20
 //@ requires sub == nil || sub.rid != dims.rid
 //@ requires len(dims) >= 1 && posdims(dims)
-//@ option may-panic
+//@ valid idx >= 0 && (sub == nil || len(sub) == len(dims)) && idx < tp(dims, 0, len(dims))
+//@ panics iff !valid
+//@ writes sub[k] for k in 0..len(dims)
 //@ ensures len(result) == len(dims)
 //@ ensures forall(k, 0, len(dims), 0 <= result[k] && result[k] < dims[k])
 //@ ensures plin(result, dims, len(dims), len(dims)) == idx
@@ -39,3 +59,5 @@ package combin
 //@ loop 2: invariant stride == tp(dims, i+1, len(dims)) && 0 <= i && i < len(dims) && stride > 0
 //@ invariant old(idx) == plin(sub, dims, i, len(dims)) + idx && 0 <= idx
 //@ invariant forall(k, 0, i, 0 <= sub[k] && sub[k] < dims[k])
+//@ invariant old(idx) < tp(dims, 0, len(dims)) ==> idx < tp(dims, i, len(dims))
+//@ invariant old(idx) >= tp(dims, 0, len(dims)) ==> it == 0 && idx == old(idx)
